@@ -247,7 +247,9 @@ func (h H) openHandlesEveryFile(rule string) {
 		if !hd.Succs[0].Dominates(c.Block()) {
 			continue
 		}
-		r1 := fi.MustCross(c, func(a core.Atom) bool { return a.Op == "!=" && a.R == "0" && strings.HasSuffix(a.L, ".n") || a.Op == ">" && a.R == "0" && strings.HasSuffix(a.L, ".n") })
+		r1 := fi.MustCross(c, func(a core.Atom) bool {
+			return a.Op == "!=" && a.R == "0" && strings.HasSuffix(a.L, ".n") || a.Op == ">" && a.R == "0" && strings.HasSuffix(a.L, ".n")
+		})
 		r2 := fi.MustCross(c, func(a core.Atom) bool {
 			return a.Op == "==" && (strings.Contains(a.L, ".prevIndex + ") || strings.Contains(a.R, ".prevIndex + ") || strings.Contains(a.L, "lastIndex(") || strings.Contains(a.R, "lastIndex("))
 		})
@@ -291,7 +293,9 @@ func (h H) frontRemovalWholeSegments(rule string) {
 		// the header test is s != last; body continues only under n > 0 and lastIndex <= i
 		a, ok := cfi.EdgeAtom(core.Edge{From: hd, Succ: 0})
 		h.C.Check(rule+" CanLTE never-the-last-segment", "(*log.Log).CanLTE loop-header", ok && a.Op == "!=" && (a.L == "Log.last" || a.R == "Log.last" || a.R == "nil" && strings.HasSuffix(a.L, ".next")), h.pos(hd.Instrs[len(hd.Instrs)-1]), "CanLTE must stop at the last segment; header test: "+a.String())
-		r1 := cfi.LoopBodyMustCross(hd, func(a core.Atom) bool { return (a.Op == ">" || a.Op == "!=") && a.R == "0" && strings.HasSuffix(a.L, ".n") })
+		r1 := cfi.LoopBodyMustCross(hd, func(a core.Atom) bool {
+			return (a.Op == ">" || a.Op == "!=") && a.R == "0" && strings.HasSuffix(a.L, ".n")
+		})
 		r2 := cfi.LoopBodyMustCross(hd, func(a core.Atom) bool { return a.Op == ">=" && a.L == "$1" && strings.Contains(a.R, ".prevIndex + ") })
 		h.C.Check(rule+" CanLTE same-conditions", "(*log.Log).CanLTE loop-body", r1.OK && r2.OK, h.pos(hd.Instrs[0]), "CanLTE skips a segment under weaker conditions than RemoveLTE removes one (non-empty, lastIndex <= i)")
 	}
@@ -364,4 +368,147 @@ func (h H) viewsAreReadOnly(rule string) {
 		}
 	})
 	h.C.Check(rule+" ViewAt-pure", "(*log.Log).ViewAt", ok, h.fpos(va), "ViewAt mutates the log it views")
+}
+
+// segmentWalks (C14.6): the loops that walk the segment chain to make the
+// log durable or to dispose of it visit every segment they are responsible
+// for: they start at the right end, step along the chain, and leave only for
+// the listed reasons. A walk that ends early (or never starts) leaves dirty
+// segments unflushed — invisible to any test that does not crash the process.
+func (h H) segmentWalks(rule string) {
+	type walk struct {
+		fn       string
+		start    string // the cursor's first value
+		step     string // field followed to the next segment
+		mustPass string // callee executed for every visited segment ("" = none)
+		exits    []core.Atom
+		exitCall string // an exit is also allowed when this call's error is non-nil
+	}
+	cursorOK := func(l string, w walk) bool {
+		return strings.Contains(l, w.start) && (strings.Contains(l, "."+w.step) || w.step == "")
+	}
+	walks := []walk{
+		{fn: "log:(*Log).CommitN", start: "Log.last", step: "prev", mustPass: "",
+			exits: []core.Atom{core.MkAtom("CUR", "==", "nil"), core.MkAtom("CUR.n", "<=", "CUR.synced")}, exitCall: "(*log.segment).sync("},
+		{fn: "log:(*Log).Close", start: "Log.last", step: "prev", mustPass: "log:(*segment).close",
+			exits: []core.Atom{core.MkAtom("CUR", "==", "nil")}},
+		{fn: "log:(*Log).Reset", start: "Log.first", step: "", mustPass: "log:(*segment).closeAndRemove",
+			exits: []core.Atom{core.MkAtom("CUR", "==", "nil")}, exitCall: "(*log.segment).closeAndRemove("},
+	}
+	for _, w := range walks {
+		fn := h.fn(w.fn)
+		fi := h.P.Info(fn)
+		hd := core.LoopHeaders(fn)
+		if !h.C.Check(rule+" single-walk", h.name(fn), len(hd) == 1, h.fpos(fn), fmt.Sprintf("expected one loop over the segment chain, found %d", len(hd))) {
+			continue
+		}
+		// the cursor: what the loop condition tests against nil
+		cur := ""
+		for _, ex := range fi.LoopExits(hd[0]) {
+			if ex.Has && ex.Atom.Op == "==" && ex.Atom.R == "nil" && cursorOK(ex.Atom.L, w) {
+				cur = ex.Atom.L
+			}
+		}
+		if !h.C.Check(rule+" cursor", h.name(fn), cur != "", h.fpos(fn), fmt.Sprintf("the walk must start at %s, follow .%s and end when the chain is exhausted (no exit of the form <cursor> == nil found)", w.start, w.step)) {
+			continue
+		}
+		for k, ex := range fi.LoopExits(hd[0]) {
+			site := fmt.Sprintf("%s exit#%d", h.name(fn), k+1)
+			pos := h.fpos(fn)
+			if len(ex.From.Instrs) > 0 {
+				pos = h.pos(ex.From.Instrs[len(ex.From.Instrs)-1])
+			}
+			ok := false
+			why := "unconditional exit"
+			if ex.Has {
+				why = "exit taken when " + ex.Atom.String()
+				for _, a := range w.exits {
+					want := core.MkAtom(strings.ReplaceAll(a.L, "CUR", cur), a.Op, strings.ReplaceAll(a.R, "CUR", cur))
+					if ex.Atom.Implies(want) {
+						ok = true
+					}
+				}
+				if w.exitCall != "" && ex.Atom.Op == "!=" && ex.Atom.R == "nil" && strings.HasPrefix(ex.Atom.L, w.exitCall) {
+					ok = true
+				}
+			} else if ex.Term != nil {
+				if _, isPanic := ex.Term.(*ssa.Panic); isPanic {
+					ok = true
+				}
+				why = "return inside the walk"
+			}
+			h.C.Check(rule+" exits", site, ok, pos, "the walk over the segment chain can stop early: "+why)
+		}
+		if w.mustPass != "" {
+			callee := h.fn(w.mustPass)
+			r := fi.LoopBodyMustPass(hd[0], func(in ssa.Instruction) bool { return h.P.IsCallTo(in, callee) })
+			h.C.Check(rule+" visits-every-segment", h.name(fn), r.OK, h.fpos(fn), "an iteration can complete without "+h.name(callee)+": "+r.Witness)
+		}
+	}
+	// Reset's walk advances by storing first.next into first in every iteration
+	rs := h.fn("log:(*Log).Reset")
+	rfi := h.P.Info(rs)
+	if hd := core.LoopHeaders(rs); len(hd) == 1 {
+		r := rfi.LoopBodyMustPass(hd[0], func(in ssa.Instruction) bool {
+			st, ok := in.(*ssa.Store)
+			return ok && rfi.Sym(st.Addr).String() == "Log.first" && rfi.Sym(st.Val).String() == "Log.first.next"
+		})
+		h.C.Check(rule+" visits-every-segment", "(*log.Log).Reset step", r.OK, h.fpos(rs), "an iteration of Reset's walk can complete without advancing to first.next: "+r.Witness)
+	}
+	// Commit() is CommitN(everything)
+	cm := h.fn("log:(*Log).Commit")
+	cn := h.fn("log:(*Log).CommitN")
+	calls := h.P.CallsTo(cm, cn)
+	ok := len(calls) == 1 && h.argStr(calls[0], 1) == "(*log.Log).LastIndex(Log)"
+	if ok {
+		for _, r := range core.Returns(cm) {
+			if v, isCall := r.Results[0].(*ssa.Call); !isCall || ssa.CallInstruction(v) != calls[0] {
+				ok = false
+			}
+		}
+	}
+	h.C.Check(rule+" Commit-is-CommitN(LastIndex)", "(*log.Log).Commit", ok, h.fpos(cm), "Commit must return CommitN(LastIndex())")
+}
+
+// observers (C13.5): Contains(i) is *exactly* PrevIndex < i <= LastIndex. The
+// layout rule (C13.3 accessors) shows true => in range; here the converse:
+// whenever Contains answers false, i is outside the range.
+func (h H) observers(rule string) {
+	cf := h.fn("log:(*Log).Contains")
+	sim := h.simAll()
+	ts := sim.Run(cf)
+	if sim.Trunc {
+		h.C.Undecided(rule+" Contains-complete", "(*log.Log).Contains", h.fpos(cf), "cannot summarise Contains")
+		return
+	}
+	n := 0
+	for _, t := range ts {
+		if t.Exit != "return" || len(t.Ret) != 1 || t.Ret[0] == "true" {
+			continue
+		}
+		f := append([]core.Rel{}, t.Facts...)
+		if t.Ret[0] != "false" {
+			if t.RetRel == nil {
+				h.C.Undecided(rule+" Contains-complete", "(*log.Log).Contains", h.fpos(cf), "unrecognised result "+t.Ret[0])
+				continue
+			}
+			f = append(f, t.RetRel.Negate())
+		}
+		n++
+		var prev, last string
+		for _, r := range f {
+			for _, x := range []string{r.A, r.B} {
+				if strings.HasPrefix(x, "ret:(*log.Log).PrevIndex") {
+					prev = x
+				}
+				if strings.HasPrefix(x, "ret:(*log.Log).LastIndex") {
+					last = x
+				}
+			}
+		}
+		c1 := prev != "" && core.Entails(f, core.Rel{A: "$1", Op: "<=", B: prev}, t.Unsigned)
+		c2 := last != "" && core.Entails(f, core.Rel{A: "$1", Op: ">", B: last}, t.Unsigned)
+		h.C.Check(rule+" Contains-complete", fmt.Sprintf("(*log.Log).Contains false-path#%d", n), c1 || c2, h.fpos(cf), "Contains(i) can answer false for PrevIndex < i <= LastIndex")
+	}
+	h.C.Floor(rule+" (false paths of Contains)", n, 2)
 }
